@@ -250,8 +250,31 @@ def report():
     print({k: len(v) for k, v in by.items()})
 
 
+def patch(mid):
+    """print the mutant as a unified diff against /repo HEAD (for tools/mutant.sh)"""
+    m = [json.loads(l) for l in open(OUT + '/plan.jsonl') if json.loads(l)['id'] == mid][0]
+    src = subprocess.run(['git', '-C', '/repo', 'show', 'HEAD:' + m['file']], capture_output=True, text=True).stdout
+    lines = src.split('\n')
+    i = m['line'] - 1
+    assert lines[i].strip() == m['before'], 'stale'
+    if m['kind'] == 'drop':
+        lines[i] = re.match(r'^\s*', lines[i]).group(0) + '// (statement dropped)'
+    else:
+        lines[i] = lines[i][:m['col']] + m['rep'] + lines[i][m['end']:]
+    import tempfile
+    d = tempfile.mkdtemp()
+    os.makedirs(d + '/a'); os.makedirs(d + '/b')
+    open(f"{d}/a/{m['file']}", 'w').write(src)
+    open(f"{d}/b/{m['file']}", 'w').write('\n'.join(lines))
+    o = subprocess.run(['diff', '-u', f"a/{m['file']}", f"b/{m['file']}"], cwd=d, capture_output=True, text=True).stdout
+    shutil.rmtree(d)
+    sys.stdout.write(o)
+
+
 if __name__ == '__main__':
-    if sys.argv[1] == 'gen':
+    if sys.argv[1] == 'patch':
+        patch(sys.argv[2])
+    elif sys.argv[1] == 'gen':
         gen(int(sys.argv[2]), int(sys.argv[3]))
     elif sys.argv[1] == 'run':
         run(int(sys.argv[2]) if len(sys.argv) > 2 else 3, sys.argv[3:])
